@@ -85,7 +85,7 @@ func normSpec(spec FilterSpec) FilterSpec {
 }
 
 func (s *Sim) opNewFilter(op *Op) {
-	if op.Spec == nil || len(s.filters) >= MaxFilters || s.locked() {
+	if op.Spec == nil || (len(s.filters) >= MaxFilters && !s.rebuilding) || s.locked() {
 		// Creating a filter may register nothing new (all types are registered), but
 		// Filter.With etc. are only exercised on an unlocked world to keep the op simple.
 		s.skip(op)
